@@ -2,6 +2,7 @@ package main
 
 import (
 	"go/token"
+	"go/types"
 	"strings"
 
 	"golang.org/x/tools/go/ssa"
@@ -441,16 +442,31 @@ func c09SharedBucket(c *Ctx, allow *ssa.Function) {
 		c.Missing(rule, construct)
 		return
 	}
-	var src ssa.Value
-	for _, ci := range callsIn(allow) {
-		if op, ok := asLockOp(ci); ok && op.Acquire && op.Class == "ratelimiter.bucket.mutex" {
-			if fa, ok := ci.Common().Args[0].(*ssa.FieldAddr); ok {
-				src = fa.X
-			}
+	// the bucket(s) Allow works on: every *bucket value it takes a field of or hands to a callee
+	var srcs []ssa.Value
+	seenSrc := map[ssa.Value]bool{}
+	isBucketPtr := func(v ssa.Value) bool {
+		pt, ok := v.Type().Underlying().(*types.Pointer)
+		return ok && QualType(namedOf(pt.Elem())) == "ratelimiter.bucket"
+	}
+	addSrc := func(v ssa.Value) {
+		if v != nil && isBucketPtr(v) && !seenSrc[v] {
+			seenSrc[v] = true
+			srcs = append(srcs, v)
 		}
 	}
-	if src == nil {
-		c.Undecided(rule, construct, p.Pos(allow.Pos()), "Allow does not lock a bucket mutex")
+	instrsOf(allow, func(in ssa.Instruction) {
+		switch x := in.(type) {
+		case *ssa.FieldAddr:
+			addSrc(x.X)
+		case ssa.CallInstruction:
+			for _, a := range x.Common().Args {
+				addSrc(a)
+			}
+		}
+	})
+	if len(srcs) == 0 {
+		c.Undecided(rule, construct, p.Pos(allow.Pos()), "Allow does not work on a bucket")
 		return
 	}
 	var bad []string
@@ -493,7 +509,9 @@ func c09SharedBucket(c *Ctx, allow *ssa.Function) {
 			bad = append(bad, "the bucket being rate-limited can be "+d+" rather than the value held in the shared map: concurrent first requests of a client each spend from a private full bucket")
 		}
 	}
-	check(src, 0)
+	for _, src := range srcs {
+		check(src, 0)
+	}
 	c.Check(len(bad) == 0, rule, construct, p.Pos(allow.Pos()), "the locked bucket is always Load()/LoadOrStore()'s value", strings.Join(bad, "; "))
 }
 
